@@ -3,9 +3,12 @@ package main
 import (
 	"encoding/hex"
 	"encoding/json"
+	"fmt"
 	"os"
 	"sync"
+	"sync/atomic"
 	"syscall"
+	"time"
 )
 
 // The journal answers one question after the harness process has DIED (a fatal runtime error such as a stack
@@ -20,9 +23,13 @@ const (
 )
 
 var (
-	journalMem  []byte
-	journalFree chan int
-	journalOnce sync.Once
+	journalMem     []byte
+	journalFree    chan int
+	journalOnce    sync.Once
+	journalPending [journalSlots]atomic.Int64 // start of the call in the slot (unix nanoseconds), 0 = none
+	// HangAfter: a single call of an exported function that has not returned after this long stops the process (exit 5).
+	// Calls in the bulk stages take microseconds to milliseconds; ./check then re-runs the pending calls alone.
+	journalHangAfter = 120 * time.Second
 )
 
 type journalRec struct {
@@ -52,6 +59,22 @@ func journalOpen() {
 			journalFree <- i
 		}
 		journalMem = m
+		if os.Getenv("VERIF_HANG_MONITOR") != "" {
+			go journalMonitor()
+		}
+	}
+}
+
+func journalMonitor() {
+	for {
+		time.Sleep(time.Second)
+		now := time.Now().UnixNano()
+		for i := range journalPending {
+			if t := journalPending[i].Load(); t != 0 && now-t > int64(journalHangAfter) {
+				fmt.Fprintf(os.Stderr, "verif: a call of an exported function has not returned after %v (journal slot %d)\n", journalHangAfter, i)
+				os.Exit(5)
+			}
+		}
 	}
 }
 
@@ -76,5 +99,6 @@ func journal(fn, e string, l []string) func() {
 	copy(slot[1:], b[1:])
 	slot[len(b)] = '\n'
 	slot[0] = '{'
-	return func() { slot[0] = 'D'; journalFree <- idx }
+	journalPending[idx].Store(time.Now().UnixNano())
+	return func() { journalPending[idx].Store(0); slot[0] = 'D'; journalFree <- idx }
 }
